@@ -106,6 +106,7 @@ namespace
             Plan p;
             p.cfg = {(int64_t)r.below(4), (int64_t)r.below(2)};
             int n = (int)r.range(3, tier == THOROUGH ? 90 : 40);
+            if (r.chance(1, 40)) n *= 25; // a long history: what only accumulates over hundreds or thousands of operations
             for (int i = 0; i < n; i++)
             {
                 int64_t k;
@@ -536,6 +537,7 @@ namespace
             Plan p;
             p.cfg = {(int64_t)r.below(4), (int64_t)r.below(2), (int64_t)r.below(4)}; // cfg[2]: direction and bucket width of the run-time ordered flat_set
             int n = (int)r.range(3, tier == THOROUGH ? 80 : 40);
+            if (r.chance(1, 40)) n *= 25; // a long history: what only accumulates over hundreds or thousands of operations
             int keys = (int)r.range(2, 12);
             for (int i = 0; i < n; i++) p.ops.push_back({(int64_t)r.below(M_N), (int64_t)r.below(keys), (int64_t)r.below(1000)});
             return p;
